@@ -886,6 +886,33 @@ func GenWide(t *rapid.T, cfg GenCfg) *Spec {
 		sp.Stages = append(sp.Stages, st)
 		return sp
 	}
+	if mode != "workflow" && rapid.IntRange(0, 2).Draw(t, "keyedPass") == 0 {
+		// a nested producer under an output key, a pass-through node that picks that key again, and a consumer
+		// whose input (map) and output (string) types differ
+		inner := lambda("q")
+		inner.OutputKey = "q"
+		g := NodeSpec{Key: "kg", Kind: "graph", In: "S", OutputKey: "g",
+			Sub: &Spec{Mode: []string{"pregel", "dag"}[rapid.IntRange(0, 1).Draw(t, "kgMode")], In: "S", Out: "M", Nodes: []NodeSpec{inner}, Edges: []Edge{{From: Start, To: "q"}, {From: "q", To: End}}}}
+		pass := NodeSpec{Key: "kp", Kind: "pass", In: "M", InputKey: "g"}
+		cons := NodeSpec{Key: "kc", Kind: "lambda", In: "M", OutputKey: "kc", Chunks: rapid.IntRange(1, 3).Draw(t, "kcChunks")}
+		if cfg.Paradigms {
+			cons.Para = paras[rapid.IntRange(0, len(paras)-1).Draw(t, "kcPara")]
+		}
+		sp.Nodes = append(sp.Nodes, g, pass, cons)
+		// the order decides whether the pass-through node takes its type from its successor or its predecessor
+		if rapid.Bool().Draw(t, "typedFromSuccessor") {
+			sp.Edges = append(sp.Edges, Edge{From: "kp", To: "kc"}, Edge{From: Start, To: "kg"}, Edge{From: "kg", To: "kp"}, Edge{From: "kc", To: End})
+		} else {
+			sp.Edges = append(sp.Edges, Edge{From: Start, To: "kg"}, Edge{From: "kg", To: "kp"}, Edge{From: "kp", To: "kc"}, Edge{From: "kc", To: End})
+		}
+		if mode == "pregel" || rapid.Bool().Draw(t, "keyedAlone") {
+			// this chain alone: the consumer's own output type (string, no output key) is the graph's output
+			sp.Nodes[len(sp.Nodes)-1].OutputKey = ""
+			sp.Out = "S"
+			return sp
+		}
+		// in all-predecessor mode END waits for the wide producers too
+	}
 	for i := 0; i < width; i++ {
 		n := lambda(fmt.Sprintf("w%d", i))
 		e := Edge{From: n.Key, To: End}
